@@ -357,7 +357,8 @@ fn reference(server: bool, max: usize, data: &[u8]) -> RefRun {
         }
         // header complete: everything below is decidable now
         let control = op >= 8;
-        if len > max as u128 {
+        // more than max_size, or more than an address space can hold (header + payload > usize::MAX)
+        if len > max as u128 || idx as u128 + len > usize::MAX as u128 {
             classes.push("ws-oversize-buffered");
             if (d.len() as u128) < idx as u128 + len {
                 break RefEnd::More { oversize_pending: true };
@@ -1246,11 +1247,11 @@ fn gen_handshake(rng: &mut Rng) -> Case {
                     headers.remove(i);
                 }
             }
-            2 => headers[1].1 = rng.pick(&[&b"WebSocket"[..], b"h2c, WEBSOCKET", b"websocke", b"web socket", b"", b"xwebsocketx", b"websocket\xc3\xa9", b"h2c"]).to_vec(),
-            3 => headers[2].1 = rng.pick(&[&b"keep-alive, Upgrade"[..], b"upgrade", b"UPGRADE", b"close", b"keep-alive", b"upgrad", b"", b"Upgrade\xff"]).to_vec(),
+            2 => { if let Some(h) = headers.iter_mut().find(|h| h.0 == "upgrade") { h.1 = rng.pick(&[&b"WebSocket"[..], b"h2c, WEBSOCKET", b"websocke", b"web socket", b"", b"xwebsocketx", b"websocket\xc3\xa9", b"h2c"]).to_vec() } }
+            3 => { if let Some(h) = headers.iter_mut().find(|h| h.0 == "connection") { h.1 = rng.pick(&[&b"keep-alive, Upgrade"[..], b"upgrade", b"UPGRADE", b"close", b"keep-alive", b"upgrad", b"", b"Upgrade\xff"]).to_vec() } }
             4 => {
                 if let Some(h) = headers.iter_mut().find(|h| h.0 == "sec-websocket-version") {
-                    h.1 = rng.pick(&[&b"8"[..], b"7", b"12", b"13 ", b" 13", b"013", b"", b"13, 8", b"14", b"5"]).to_vec();
+                    h.1 = rng.pick(&[&b"8"[..], b"7", b"12", b"13 ", b" 13", b"013", b"", b"13, 8", b"14", b"5"]).to_vec() } };
                 }
             }
             5 => {
@@ -1273,12 +1274,16 @@ fn gen_handshake(rng: &mut Rng) -> Case {
                     headers.push((n, rng.pick(&[&b"nope"[..], b"websocket", b"upgrade", b"13", b"9"]).to_vec()));
                 }
             }
-            8 => headers.swap(1, 2),
+            8 => {
+                if headers.len() > 2 {
+                    headers.swap(1, 2)
+                }
+            }
             9 => headers.retain(|h| h.0 != "sec-websocket-key"),
             10 => headers.retain(|h| h.0 != "sec-websocket-version"),
             11 => headers = vec![],
             12 => headers.push(("sec-websocket-protocol".into(), b"chat".to_vec())),
-            _ => headers[1].1 = rng.pick(&[&b"WEBSOCKET"[..], b"websocket, foo", b"foo,websocket"]).to_vec(),
+            _ => { if let Some(h) = headers.iter_mut().find(|h| h.0 == "upgrade") { h.1 = rng.pick(&[&b"WEBSOCKET"[..], b"websocket, foo", b"foo,websocket"]).to_vec() } }
         }
     }
     Case::Handshake { method, headers: headers.into_iter().map(|(n, v)| (n, hex(&v))).collect() }
